@@ -58,6 +58,11 @@ func RightTrim(p parsley.Parser, wsMode WsMode) parser.Func {
 		tr := ctx.Reader().(*Reader)
 		res, cp, err := p.Parse(ctx, leftRecCtx, pos)
 		if err != nil {
+			if parsley.IsWhitespaceError(err) {
+				// a whitespace error already points at the offending run (its start, its first line break or
+				// its end); moving it past the whitespace would misreport where the mode was violated
+				return res, cp, err
+			}
 			errPos, _ := tr.SkipWhitespaces(err.Pos(), wsMode)
 			if errPos > err.Pos() {
 				err = parsley.NewError(errPos, err.Cause())
